@@ -649,3 +649,84 @@ def plant_marked_content(doc, rng, kind):
         raise ValueError(kind)
     append_ops(doc, rng, page, ops)
     return [pi]
+
+
+# ---- Indexed colour spaces (§8.6.6.3; ColorSpace::to_primitive) and streams with /DecodeParms (Table 8) ---------------
+
+# (palettes of 100 bytes and more are written by the library as a stream placed directly inside the colour-space array — a
+#  defect of the unchanged library, reported; the generator stays below)
+INDEXED_KINDS = ["image-str-small", "image-str-99", "image-stream", "image-cmyk", "form-cs", "form-cs-stream", "image-str-mid", "image-stream-99"]
+PARMS_KINDS = ["flate-png-up", "lzw-early0", "chain-null-parms", "form-flate-png", "flate-tiff", "lzw-early0-form"]
+
+
+def _image_dict(w, h, cs):
+    return {"Type": Name("XObject"), "Subtype": Name("Image"), "Width": w, "Height": h, "ColorSpace": cs, "BitsPerComponent": 8,
+            "ImageMask": False, "Interpolate": False}
+
+
+def plant_indexed(doc, rng, kind):
+    doc.features.add("indexed:" + kind)
+    page = doc.objs[rng.choice(doc.pages)]
+    ncomp = 4 if kind == "image-cmyk" else 3
+    base = Name("DeviceCMYK" if ncomp == 4 else "DeviceRGB")
+    if kind.endswith("-99"):
+        n = 99
+    elif kind == "image-str-mid":
+        n = 3 * rng.randrange(10, 33)
+    else:
+        n = ncomp * rng.randrange(1, 9)
+    pal = rnd_bytes(rng, n)
+    lookup = pal
+    if "stream" in kind:
+        lookup = doc.add(enc_stream(rng, {}, pal, rng.choice(["none", "flate", "hex", "a85"])))
+    cs = [Name("Indexed"), base, n // ncomp - 1, lookup]
+    if kind.startswith("form"):
+        form = make_form(doc, rng, {"ColorSpace": {"CS0": cs}}, b"/CS0 cs %d scn 0 0 5 5 re f" % rng.randrange(n // ncomp))
+        add_resource(doc, page, "XObject", "XI0", form, b"q /XI0 Do Q")
+    else:
+        w, h = rng.randrange(1, 5), rng.randrange(1, 5)
+        img = doc.add(enc_stream(rng, _image_dict(w, h, cs), bytes(rng.randrange(n // ncomp) for _ in range(w * h)),
+                                 rng.choice(["none", "flate", "hex", "a85+flate"])))
+        add_resource(doc, page, "XObject", "XI0", img, b"q /XI0 Do Q")
+
+
+def png_up(data, row):
+    """PNG predictor 'Up' (Predictor 12): every row preceded by its tag byte 2"""
+    out, prev = b"", bytes(row)
+    for i in range(0, len(data), row):
+        r = data[i:i + row]
+        out += b"\x02" + bytes((a - b) & 255 for a, b in zip(r, prev))
+        prev = r
+    return out
+
+
+def plant_parms(doc, rng, kind):
+    """a stream whose /DecodeParms say something (non-default entries): the copy must say the same"""
+    doc.features.add("parms:" + kind)
+    page = doc.objs[rng.choice(doc.pages)]
+    w, h = rng.randrange(1, 5), rng.randrange(1, 5)
+    raw = rnd_bytes(rng, 3 * w * h)
+    img = _image_dict(w, h, Name("DeviceRGB"))
+    pred = {"Predictor": 12, "Colors": 3, "Columns": w}
+    if kind == "flate-png-up":
+        x = Stream(dict(img, Filter=Name("FlateDecode"), DecodeParms=pred), zlib.compress(png_up(raw, 3 * w)))
+    elif kind == "flate-tiff":
+        tiff = b"".join(bytes([raw[i + j] if j < 3 else (raw[i + j] - raw[i + j - 3]) & 255 for j in range(3 * w)]) for i in range(0, len(raw), 3 * w))
+        x = Stream(dict(img, Filter=[Name("FlateDecode")], DecodeParms=[{"Predictor": 2, "Colors": 3, "Columns": w, "BitsPerComponent": 8}]), zlib.compress(tiff))
+    elif kind == "lzw-early0":
+        x = Stream(dict(img, Filter=Name("LZWDecode"), DecodeParms={"EarlyChange": 0}), codecs.lzw_encode(raw, 0))
+    elif kind == "chain-null-parms":
+        x = Stream(dict(img, Filter=[Name("ASCIIHexDecode"), Name("FlateDecode")], DecodeParms=[None, pred]),
+                   codecs.hex_encode(zlib.compress(png_up(raw, 3 * w))))
+    elif kind in ("form-flate-png", "lzw-early0-form"):
+        body = b"0.5 g 0 0 4 4 re f 1 w 0 0 m 9 9 l S"
+        fd = {"Type": Name("XObject"), "Subtype": Name("Form"), "FormType": 1, "BBox": [0, 0, 10, 10]}
+        if kind == "form-flate-png":
+            cols = 6
+            body += b" " * (-len(body) % cols)
+            x = Stream(dict(fd, Filter=Name("FlateDecode"), DecodeParms={"Predictor": 12, "Columns": cols}), zlib.compress(png_up(body, cols)))
+        else:
+            x = Stream(dict(fd, Filter=Name("LZWDecode"), DecodeParms={"EarlyChange": 0}), codecs.lzw_encode(body, 0))
+    else:
+        raise ValueError(kind)
+    add_resource(doc, page, "XObject", "XD0", doc.add(x), b"q /XD0 Do Q")
